@@ -307,3 +307,44 @@ Fixpoint run_stream_stale (beh : behaviour) (n : Z) (prev : option Z) (rs : list
       let '(s', log', alive) := dispatch beh n h s log in
       if alive then run_stream_stale beh (n + 1) (Some h) rest s' log' else (s', log', false)
   end.
+
+(* ================================================================================================
+   The library's own packet_received listener _check_for_answers scans the pending answer patterns (a dict) while
+   OTHER THREADS insert patterns (send_packet with an expected reply) or remove them between the steps of the loop.
+   The code iterates a SNAPSHOT of the keys (`list(d.keys())`, one atomic call).  A live dict iteration raises
+   RuntimeError as soon as the size of the dict differs from the size when the iteration started (CPython); that
+   exception would escape Caller.call and run(): the dispatcher is dead, the packet reaches no port callback. *)
+Inductive kop := KIns (p : Z) | KDel (p : Z).
+
+Fixpoint kapply (d : list Z) (ops : list kop) : list Z :=
+  match ops with
+  | [] => d
+  | KIns p :: r => kapply (if existsb (Z.eqb p) d then d else d ++ [p]) r
+  | KDel p :: r => kapply (filter (fun x => negb (x =? p)) d) r
+  end.
+
+(* result: (keys visited, dict afterwards, finished without exception); `other k` = what other threads do after the
+   k-th loop step *)
+Fixpoint scan_snapshot (snap : list Z) (other : nat -> list kop) (k : nat) (d : list Z) : list Z * list Z * bool :=
+  match snap with
+  | [] => ([], d, true)
+  | p :: rest =>
+      let '(vis, d', ok) := scan_snapshot rest other (S k) (kapply d (other k)) in (p :: vis, d', ok)
+  end.
+
+Fixpoint scan_live (fuel : nat) (size0 : nat) (idx : nat) (other : nat -> list kop) (k : nat) (d : list Z)
+  : list Z * list Z * bool :=
+  match fuel with
+  | O => ([], d, true)
+  | S f =>
+      if negb (length d =? size0)%nat then ([], d, false)            (* dictionary changed size during iteration *)
+      else match nth_error d idx with
+           | None => ([], d, true)
+           | Some p => let '(vis, d', ok) := scan_live f size0 (S idx) other (S k) (kapply d (other k)) in (p :: vis, d', ok)
+           end
+  end.
+
+Definition answer_scan (d : list Z) (other : nat -> list kop) : list Z * list Z * bool :=
+  scan_snapshot d other 0 d.
+Definition answer_scan_live (d : list Z) (other : nat -> list kop) : list Z * list Z * bool :=
+  scan_live (S (length d)) (length d) 0 other 0 d.
